@@ -374,7 +374,45 @@ def report(chk, budget, ops, res, source):
     })
 
 
+def frame_scenario(seed, budget=200000, n=30):
+    """data frames and series with more than 100 rows of uneven size, each about as large as the budget: the size of such an
+    object is *estimated* from a random sample of rows, so two estimates of one object differ. Whatever the estimates are,
+    the accounts must be honest: usage <= budget, no resident entry larger than the budget, usage = sum of the resident
+    entries' sizes. (Real cache only; reads `cache` / `obj_size` of the cache object.)"""
+    import random
+    rng = random.Random(seed)
+    w = World(budget)
+    pd = w.pd
+    fails = []
+    for i in range(n):
+        rows = rng.randint(120, 420)
+        target = budget * rng.uniform(0.75, 1.25)
+        weights = [rng.choice([0.03, 0.1, 0.5, 1, 3, 6]) for _ in range(rows)]
+        scale = target / sum(weights)
+        texts = ["x" * max(1, int(wt * scale)) for wt in weights]
+        obj = pd.DataFrame({"t": texts, "n": list(range(rows))}) if i % 3 else pd.Series(texts)
+        key = (1 + i % 3, 1 + (i // 3) % 3)
+        m = w.mfns.make_memento(w.fwa[key], seq=5000 + i)
+        w.cache.put(m, obj, True)
+        c = w.cache
+        sizes = [int(e.obj_size) for e in c.cache.values()]
+        usage = int(c.memory_usage)
+        if usage > budget:
+            fails.append(dict(clause="never-exceeds-budget", usage=usage, budget=budget, step=i, rows=rows))
+        if any(sz > budget for sz in sizes):
+            fails.append(dict(clause="oversize-never-resident", sizes=sizes, budget=budget, step=i, rows=rows))
+        if usage != sum(sizes):
+            fails.append(dict(clause="usage-equals-resident", usage=usage, accounted=sum(sizes), step=i))
+        if fails:
+            break
+    return fails
+
+
 def main(chk, replay=None):
+    if replay is not None and replay.get("frames"):
+        bad = frame_scenario(replay["frame_seed"], replay["budget"])
+        print(json.dumps(dict(still_fails=bool(bad), observed=bad[:3]), default=str))
+        return 1 if bad else 0
     if replay is not None:
         r = execute(replay["budget"], replay["ops"], use_model=False)
         cl = replay.get("class", {}).get("clause")
@@ -384,7 +422,8 @@ def main(chk, replay=None):
 
     chk.rule = ("op histories over 3 functions x 3 argument values on the real MemoryCache with byte-precise budgets; "
                 "values: bytes (not weak-referenceable), ndarray (weak-referenceable), Series (copied), memento-only; "
-                "sizes relative to the budget (5%..300%, exactly fitting +-1). Distinct = distinct (budget, op list); "
+                "sizes relative to the budget (5%..300%, exactly fitting +-1); plus data frames / series of > 100 uneven rows about as large "
+                "as the budget (their size is estimated from a random sample of rows; real cache only). Distinct = distinct (budget, op list); "
                 "non-trivial = contains >= 1 put.")
     chk.assumptions += [
         "sizes are what the real _estimate_object_size returns (fed to the model as data)",
@@ -416,6 +455,16 @@ def main(chk, replay=None):
             chk.correspondence_break("cache-ops", dict(budget=budget, ops=ops[: res["mismatch"][0]["step"] + 1],
                                                        first=res["mismatch"][0]))
 
+    # frames whose size is estimated from a sample of rows, each about as large as the budget
+    for fs_ in range(6 if quick else 60):
+        fseed = rng.randrange(1 << 30)
+        ff = frame_scenario(fseed)
+        chk.case(["frames", fseed], nontrivial=True, sample=dict(kind="sampled-size frames near the budget", seed=fseed))
+        chk.count("frame-puts", 30)
+        if ff:
+            chk.violation({"what": "cache accounting with sampled-size frames: %s" % ff[0]["clause"], "class": {"clause": ff[0]["clause"], "values": "frames"},
+                           "frames": True, "frame_seed": fseed, "budget": 200000, "observed": ff[:2]})
+            break
     # corpus of minimized past disagreements runs first
     for c in CORPUS:
         run_one(c["budget"], c["ops"], "corpus")
